@@ -64,14 +64,14 @@ var checks = map[string]*Check{
 	},
 	"C05": {
 		Legs:        []Leg{{World: "C05", Weight: 1}},
-		Probes:      []string{"body_larger_than_buffers", "lockstep_multi_chunk", "through_wrapped_handler_chain", "declared_length_multi_chunk", "retry_while_streaming"},
+		Probes:      []string{"body_larger_than_buffers", "lockstep_multi_chunk", "through_wrapped_handler_chain", "declared_length_multi_chunk", "retry_while_streaming", "trickle_of_tiny_chunks", "upload_refused_before_response_started"},
 		Rule:        "Real agent vs fake proxy that decodes the upload incrementally; lock-step backend flushes chunk i+1 only after the proxy saw chunk i; 1..12 (thorough ..200) chunks of 1 B..70 KiB (thorough ..2 MiB), pauses, agent handler chain drawn per run (sessions / banner / shim wrappers on or off), backend framing chunked or with a declared Content-Length, SimNet buffer sizes 1..256 KiB, latency 0..200 ms. Each chunk must be visible within 2 s + network time.",
 		Assumptions: commonAssumptions,
 		RealStub:    coreRealStub,
 	},
 	"C08": {
 		Legs:        []Leg{{World: "C08", Weight: 1}},
-		Probes:      []string{"backoff_measured", "reached_cap", "direct_evaluation"},
+		Probes:      []string{"backoff_measured", "reached_cap", "direct_evaluation", "requests_in_flight_while_polls_fail"},
 		Rule:        "Real agent polling loop vs fake proxy with scripted list failures (5xx, 404, garbled JSON, truncated body, refused dial, hang until the 60 s client timeout) in runs of 1..16 (sometimes ..80) consecutive failures separated by successes; zero network latency so the gap is the back-off sleep; envelope 0.9..1.1 x min(2^k ms, 3 s). Retry counts the loop cannot reach (2^32, max uint, ...) are evaluated by direct calls (reported as probe direct_evaluation, not as simulated runs).",
 		Assumptions: commonAssumptions,
 		RealStub:    coreRealStub,
@@ -85,7 +85,7 @@ var checks = map[string]*Check{
 	},
 	"C09": {
 		Legs:        []Leg{{World: "C09", Weight: 1}},
-		Probes:      []string{"forged_user_id_with_forwarding", "authorization_with_stripping", "websocket_handshake_seen", "user_id_named_hop_by_hop_by_client", "identity_with_escapes"},
+		Probes:      []string{"forged_user_id_with_forwarding", "authorization_with_stripping", "websocket_handshake_seen", "user_id_named_hop_by_hop_by_client", "identity_with_escapes", "upgrade_request_naming_the_user_id", "empty_identity_with_forged_header"},
 		Rule:        "Real agent with all four combinations of -forward-user-id / -strip-credentials x shim x sessions vs fake proxy asserting a user per request and serving client requests that carry forged, repeated and odd-case X-Inverting-Proxy-User-ID and Authorization fields (also named in the client's Connection header), asserted identities containing + and %XX; 2..6 requests of several users in flight at once; plain HTTP and shim open (websocket handshake) observed at a recording backend.",
 		Assumptions: commonAssumptions,
 		RealStub:    coreRealStub,
@@ -131,7 +131,7 @@ var checks = map[string]*Check{
 	},
 	"C13": {
 		Legs:        []Leg{{World: "C13", Weight: 1}},
-		Probes:      []string{"open_succeeded", "open_rejected", "non_shim_request", "backend_redirects_handshake", "sibling_of_shim_prefix"},
+		Probes:      []string{"open_succeeded", "open_rejected", "non_shim_request", "backend_redirects_handshake", "sibling_of_shim_prefix", "backend_dial_refused", "many_pending_polls"},
 		Rule:        "1..6 concurrent shim open requests whose bodies come from a URL grammar (absolute, scheme-relative, path-only, opaque scheme:rest, empty, userinfo, IPv6 literals, odd ports, foreign and link-local hosts, control bytes) or are random byte strings, plus 0..3 requests on look-alike paths outside the shim prefix; closed-world SimNet records every address any goroutine of the agent's host dials. Input-dominated: the simulator's contribution is that no dial can escape observation.",
 		Assumptions: commonAssumptions,
 		RealStub:    coreRealStub,
@@ -145,7 +145,7 @@ var checks = map[string]*Check{
 	},
 	"C14": {
 		Legs:        []Leg{{World: "C14", Weight: 1}},
-		Probes:      []string{"shim_script_injected", "banner_frame_served", "non_html_untouched", "already_framed_original_body", "head_straddles_first_kilobyte", "interim_1xx", "encoded_body_passed_through"},
+		Probes:      []string{"shim_script_injected", "banner_frame_served", "non_html_untouched", "already_framed_original_body", "head_straddles_first_kilobyte", "interim_1xx", "encoded_body_passed_through", "html_body_starts_late"},
 		Rule:        "Raw client -> real proxy -> real agent with -inject-banner and/or -shim-websockets -> raw scripted backend; the backend's own response is the reference. Generated: method, Accept, Sec-Fetch-Dest/Mode, Referer; status; Content-Type from unambiguous HTML and non-HTML families; Content-Disposition; bodies with <head> at offsets around 0 and the first kilobyte, repeated, upper-case or truncated; backend write boundaries through <head>; SimNet segmentation up to 80%. Input-dominated; the simulated dimension is how the body is split across reads.",
 		Assumptions: commonAssumptions,
 		RealStub:    coreRealStub,
@@ -187,7 +187,7 @@ var checks = map[string]*Check{
 	},
 	"C17": {
 		Legs:        []Leg{{World: "C17", Weight: 1}},
-		Probes:      []string{"admin_api_refused", "authorised_agent_call", "unauthorised_agent_call", "user_request_routed", "reregistered_old_agent", "crafted_request_id"},
+		Probes:      []string{"admin_api_refused", "authorised_agent_call", "unauthorised_agent_call", "user_request_routed", "reregistered_old_agent", "crafted_request_id", "federated_user_without_email", "intruder_concurrent_with_rightful_agent"},
 		Rule:        "App Engine proxy behind the platform's request wrapper with a stub platform: 1..4 registered backends; admin API calls, agent calls (pending/request/response) and end-user requests by generated identities (anonymous, signed-in user, OAuth agent, OAuth user, admin, OAuth admin) against own / other / unknown backend and request IDs. Reference ACL table maintained from successful admin calls; store snapshot compared before/after every refused call.",
 		Assumptions: commonAssumptions,
 		RealStub: map[string]string{
@@ -200,7 +200,7 @@ var checks = map[string]*Check{
 	},
 	"C18": {
 		Legs:        []Leg{{World: "C18", Weight: 1}},
-		Probes:      []string{"routed", "answered_404", "shared_fallback", "lookup_fault", "registrations_changed_between_lookups"},
+		Probes:      []string{"routed", "answered_404", "shared_fallback", "lookup_fault", "registrations_changed_between_lookups", "busy_backend_polls_return_at_once"},
 		Rule:        "1..6 backends with 1..3 prefixes each from a menu of nested / overlapping / duplicate / empty prefixes for two users and allUsers; each backend's agent polled 1 s .. 20 min before the requests (or never), clock advanced by the simulator across the 5-minute window; 1..5 concurrent user requests; tracker-lookup RPC faults in a sixth of the runs. Independent specification: longest matching prefix among the user's backends, shared fallback only without a match, routed iff live; ties accept either. Also: a second lookup round for the same users and paths 10 s later, after a more specific backend was registered and polled or a backend was deleted; the platform's clean-up cron call before the lookups.",
 		Assumptions: commonAssumptions,
 		RealStub: map[string]string{
